@@ -652,6 +652,44 @@ fn run_small(acc: &mut Acc) {
             other => report(acc, "sticker-get-value", format!("[sticker get] {other:?}, server sent value {value:?}"), "sticker-get", &fields),
         }
     }
+    // every sticker name of length 1..=3 over {a, blank, 2-/3-/4-byte characters, dot} with every value of
+    // length 0..=2 over {a, =, 2-byte character, blank}: the name ends at the FIRST '=' (byte, not character, offsets)
+    {
+        let names: Vec<String> = strings_over(&["a", " ", "\u{e9}", "\u{4fa1}", "\u{1d11e}", "."], 3).into_iter().filter(|n| !n.is_empty()).collect();
+        let values = strings_over(&["a", "=", "\u{e9}", " "], 2);
+        for name in &names {
+            let mut list_fields: Fields = Vec::new();
+            let mut find_fields: Fields = Vec::new();
+            let mut list_want: BTreeMap<String, String> = BTreeMap::new();
+            let mut find_want: BTreeMap<String, String> = BTreeMap::new();
+            for (i, value) in values.iter().enumerate() {
+                let fields: Fields = vec![f("sticker", format!("{name}={value}"))];
+                acc.replies += 1;
+                acc.checks += 1;
+                match catch(|| c::StickerGet::new("u", name).response(frame_of(&fields))) {
+                    Ok(Ok(s)) if s.value == *value => {}
+                    other => report(acc, "sticker-get-value", format!("[sticker get] {other:?}, server sent name {name:?} value {value:?}"), "sticker-get", &fields),
+                }
+                // list: distinct names (the name plus a counter); find: one name, distinct files
+                list_fields.push(f("sticker", format!("{name}{i}={value}")));
+                list_want.insert(format!("{name}{i}"), value.clone());
+                find_fields.push(f("file", format!("song {i}.flac")));
+                find_fields.push(f("sticker", format!("{name}={value}")));
+                find_want.insert(format!("song {i}.flac"), value.clone());
+            }
+            acc.replies += 2;
+            acc.checks += 2;
+            acc.nontrivial += 2;
+            match catch(|| c::StickerList::new("u").response(frame_of(&list_fields))) {
+                Ok(Ok(s)) if s.value.iter().map(|(k, v)| (k.clone(), v.clone())).collect::<BTreeMap<_, _>>() == list_want => {}
+                other => report(acc, "sticker-list-value", format!("[sticker list] {other:?}, server sent {list_want:?}"), "sticker-list", &list_fields),
+            }
+            match catch(|| c::StickerFind::new("", name).response(frame_of(&find_fields))) {
+                Ok(Ok(s)) if s.value.iter().map(|(k, v)| (k.clone(), v.clone())).collect::<BTreeMap<_, _>>() == find_want => {}
+                other => report(acc, "sticker-find-value", format!("[sticker find] {other:?}, server sent {find_want:?}"), "sticker-find", &find_fields),
+            }
+        }
+    }
     expect_err(acc, "sticker-get", &vec![f("sticker", "novalue")], catch(|| c::StickerGet::new("u", "n").response(frame_of(&vec![f("sticker", "novalue")]))));
     expect_err(acc, "sticker-get", &vec![], catch(|| c::StickerGet::new("u", "n").response(frame_of(&vec![]))));
     {
@@ -729,7 +767,7 @@ pub fn run(tier: Tier) -> i32 {
     let mut cov = Coverage::default();
     cov.evaluations = acc.replies;
     cov.distinct_nontrivial = acc.nontrivial.min(acc.replies);
-    cov.rule = "status: every subset of the 11 optional field groups (2048) in MPD's order, a spread (thorough: all) of them also reversed / every rotation / every adjacent transposition, every field at each boundary or enum value one at a time, every millisecond value 0.000..20.000 s (thorough: ..1000.000 s) for elapsed/duration, every out-of-domain spelling per field; stats, count (plain, grouped with 1..3 groups and both songs/playtime orders), list (plain, grouped by 1 and 2 tags in both group_by orders, repeated and changing keys), listplaylists, sticker get/list/find with '=' in values, channels, readmessages, tagtypes, update/rescan, replay_gain_status, addid; non-trivial = every reply except the reordered copies".to_string();
+    cov.rule = "status: every subset of the 11 optional field groups (2048) in MPD's order, a spread (thorough: all) of them also reversed / every rotation / every adjacent transposition, every field at each boundary or enum value one at a time, every millisecond value 0.000..20.000 s (thorough: ..1000.000 s) for elapsed/duration, every out-of-domain spelling per field; stats, count (plain, grouped with 1..3 groups and both songs/playtime orders), list (plain, grouped by 1 and 2 tags in both group_by orders, repeated and changing keys), listplaylists, sticker get/list/find with '=' in values and every name of length <= 3 over 6 classes (incl. 2-, 3-, 4-byte characters) x every value of length <= 2 over 4 classes, channels, readmessages, tagtypes, update/rescan, replay_gain_status, addid; non-trivial = every reply except the reordered copies".to_string();
     cov.states = acc.replies;
     cov.transitions = acc.checks;
     cov.traces = acc.replies;
